@@ -76,3 +76,13 @@ Definition mut_site_ok (s : string * string * string * string * string) : bool :
 Definition record_ok (t : string * string * string) : bool :=
   let '(file, name, kind) := t in
   negb (String.eqb kind "dataclass-MUTABLE") || (String.eqb file "nrel/hive/reporting/handler/summary_stats.py" && String.eqb name "SummaryStats").
+
+(* C16, second sentence: a step may depend on nothing but the saved state and the controller.  Reads of hidden process state (the
+   `random` streams, the wall clock, os entropy) are allowed only in the scenario SAMPLERS of initialisation, which build the first
+   state and are not part of a step. *)
+Definition sampler_files : list string := [
+  "nrel/hive/initialization/sample_requests.py";
+  "nrel/hive/initialization/sample_vehicles.py"
+].
+Definition hidden_site_ok (s : string * string * string) : bool :=
+  let '(file, fn, expr) := s in existsb (String.eqb file) sampler_files.
